@@ -15,16 +15,17 @@ func init() {
 }
 
 type c19Req struct {
-	Spec   int    `json:"spec"`
-	Method string `json:"method"`
-	Path   string `json:"path"`
-	Tok    string `json:"tok"`
-	Origin string `json:"origin,omitempty"`
-	ACRM   string `json:"acrm,omitempty"`
-	ACRH   string `json:"acrh,omitempty"`
-	AE     string `json:"accept_encoding,omitempty"`
-	Accept string `json:"accept,omitempty"`
-	Body   bool   `json:"body,omitempty"`
+	Spec    int    `json:"spec"`
+	Method  string `json:"method"`
+	Path    string `json:"path"`
+	Tok     string `json:"tok"`
+	Origin  string `json:"origin,omitempty"`
+	ACRM    string `json:"acrm,omitempty"`
+	ACRH    string `json:"acrh,omitempty"`
+	AE      string `json:"accept_encoding,omitempty"`
+	Accept  string `json:"accept,omitempty"`
+	Body    bool   `json:"body,omitempty"`
+	BodyEnc string `json:"body_content_encoding,omitempty"` // the POST entity is sent gzip- or deflate-coded
 }
 
 type c19Scen struct {
@@ -88,6 +89,9 @@ func genC19(x *Ctx) *c19Scen {
 		}
 		r.Accept = []string{"", "application/json", "application/xml", "*/*"}[tp.G(4)]
 		r.Body = r.Method == "POST"
+		if r.Body {
+			r.BodyEnc = []string{"gzip", "", "deflate"}[tp.G(3)]
+		}
 		sc.Specs = append(sc.Specs, r)
 	})
 	nSpecs := len(sc.Specs)
@@ -113,6 +117,7 @@ type c19Echo struct {
 	Params string `json:"params" xml:"params"`
 	Q      string `json:"q" xml:"q"`
 	Attrs  string `json:"attrs" xml:"attrs"`
+	Ent    string `json:"ent" xml:"ent"`
 }
 
 func c19Build(sc *c19Scen) *restful.Container {
@@ -152,6 +157,16 @@ func c19Build(sc *c19Scen) *restful.Container {
 		y(sim.SiteHandler)
 		trail, _ := req.Attribute("trail").(string)
 		e := c19Echo{Route: req.SelectedRoutePath(), Params: kv(req.PathParameters()), Q: req.QueryParameter("q"), Attrs: trail}
+		if req.Request.Method == "POST" {
+			// the entity carries the request's own token: a body decoded through another request's
+			// decompressor shows in the echo
+			var ent struct{ Tok string }
+			if err := req.ReadEntity(&ent); err != nil {
+				e.Ent = "unreadable"
+			} else {
+				e.Ent = ent.Tok
+			}
+		}
 		y(sim.SiteHandler)
 		resp.WriteEntity(e)
 	}
@@ -203,7 +218,16 @@ func (r *c19Req) serveGone(c *restful.Container, entry int, t *sim.Task, id int,
 	var hr = NewReq(r.Method, r.Path, hdr, nil, 0, id)
 	if r.Body {
 		hdr["Content-Type"] = "application/json"
-		hr = NewReq(r.Method, r.Path, hdr, &sim.SimBody{T: t, Data: []byte(`{"a":1}`)}, 7, id)
+		data := []byte(fmt.Sprintf(`{"Tok":"%s","Pad":"%s"}`, r.Tok, sim.PayloadText(r.Tok, 300)))
+		switch r.BodyEnc {
+		case "gzip":
+			data = Gzip(data)
+			hdr["Content-Encoding"] = "gzip"
+		case "deflate":
+			data = Zlib(data)
+			hdr["Content-Encoding"] = "deflate"
+		}
+		hr = NewReq(r.Method, r.Path, hdr, &sim.SimBody{T: t, Data: data, Chunks: []int{37, 101}}, int64(len(data)), id)
 	}
 	w := sim.NewSimWriter(t)
 	if gone > 0 {
